@@ -346,6 +346,7 @@ Proof.
   assert (C : check_inserted_packet (PMetadata hA clo ckt fsz (Some (sn, [x])) msgs) (dst_init cd) = (dst_init cd, Ok tt)).
   { apply check_a; [reflexivity|reflexivity|left; split; [reflexivity|repeat eexists]]. }
   rewrite (b_ok _ _ _ _ _ C).
+  unfold catch_abandoned; apply catch_ok.
   unfold dst_init at 1. mrun. fold (dst_init cd).
   rewrite (b_ok _ _ _ _ _ (idle_md_a sn msgs)).
   unfold DA at 1, dstA, dpA, hB. mrun.
@@ -386,6 +387,7 @@ Proof.
   assert (C : check_inserted_packet (PFileData hA off data) (DA off ls off fs lg) = (DA off ls off fs lg, Ok tt)).
   { apply check_a; [reflexivity|reflexivity|right; split; [reflexivity|split; reflexivity]]. }
   rewrite (b_ok _ _ _ _ _ C).
+  unfold catch_abandoned; apply catch_ok.
   unfold DA at 1, dstA, dpA, hB. mrun.
   apply nif_fd_a; assumption.
 Qed.
@@ -416,6 +418,7 @@ Proof.
   assert (C : check_inserted_packet (PEof hA C_NO_ERROR cks fsz fl) (DA fsz ls fsz fs lg) = (DA fsz ls fsz fs lg, Ok tt)).
   { apply check_a; [reflexivity|reflexivity|right; split; [reflexivity|split; reflexivity]]. }
   rewrite (b_ok _ _ _ _ _ C).
+  unfold catch_abandoned; apply catch_ok.
   unfold DA at 1, dstA, dpA, hB. mrun.
   apply nif_eof_a.
 Qed.
@@ -446,9 +449,10 @@ Proof.
   rewrite (timer_fresh 0 (r_ack_ms rd) Hack); reflexivity.
 Qed.
 
-Lemma dsm_busy_none : forall s, d_state s = ST_BUSY -> Dest.state_machine None s = non_idle_fsm 3 None s.
+Lemma dsm_busy_none : forall s, d_state s = ST_BUSY ->
+  Dest.state_machine None s = catch_abandoned (non_idle_fsm 3 None) s.
 Proof.
-  intros s H. unfold Dest.state_machine, get, bind, ret, when. rewrite H.
+  intros s H. unfold Dest.state_machine, catch_abandoned, catch, get, bind, ret, when. rewrite H.
   change (ST_BUSY =? ST_IDLE) with false. cbv beta iota. rewrite H. reflexivity.
 Qed.
 
@@ -457,7 +461,8 @@ Lemma sm_complete : forall cks ls fs lg data,
   Dest.state_machine None (DE 0 [] cks ls fs lg) =
     (DW 1 [finP] cks ls fs (EvFinished srcid seq C_NO_ERROR DATA_COMPLETE FS_RETAINED None :: lg), Ok tt).
 Proof.
-  intros cks ls fs lg data Hl Hck. rewrite dsm_busy_none by reflexivity. eapply nif_complete; eassumption.
+  intros cks ls fs lg data Hl Hck. rewrite dsm_busy_none by reflexivity.
+  unfold catch_abandoned; apply catch_ok. eapply nif_complete; eassumption.
 Qed.
 
 (* ACK(Finished) arrives: back to IDLE *)
@@ -468,6 +473,7 @@ Proof.
   assert (C : check_inserted_packet (PAck hA D_FINISHED cond st) (DW 0 [] cks ls fs lg) = (DW 0 [] cks ls fs lg, Ok tt)).
   { apply check_a; [reflexivity|reflexivity|right; split; [reflexivity|split; reflexivity]]. }
   rewrite (b_ok _ _ _ _ _ C).
+  unfold catch_abandoned; apply catch_ok.
   unfold DW at 1, dstA, dpA, hB, fin1. mrun. change 3%nat with (S 2). cbn [non_idle_fsm].
   unfold fsm_advancement at 1. mrun.
   unfold handle_waiting_for_finished_ack, reset_internal. mrun. reflexivity.
@@ -476,7 +482,8 @@ Qed.
 (* a call on the idle handler *)
 Lemma sm_idle_none : forall fs lg,
   Dest.state_machine None (dfinal cd srcid seq fs lg) = (dfinal cd srcid seq fs lg, Ok tt).
-Proof. intros fs lg. unfold Dest.state_machine, dfinal. mrun. unfold idle_fsm. mrun. reflexivity. Qed.
+Proof. intros fs lg. unfold Dest.state_machine, dfinal. mrun.
+  unfold catch_abandoned; apply catch_ok. mrun. unfold idle_fsm. mrun. reflexivity. Qed.
 End ReceiverA.
 
 (* ================================================================== *)
